@@ -58,6 +58,27 @@ def mixed(proto, buf, k):
     return b
 
 
+def exact_size(proto, buf, size):
+    """a decodable datagram filled up to exactly `size` octets (the receive buffer's size is a legal datagram size): a set of an
+    unknown template / a sample of an unknown type takes the room that is left.  None when it does not fit."""
+    room = size - len(buf)
+    if proto in ("ipfix", "netflow9"):
+        if room < 4:
+            return None
+        b = list(buf) + u16(990) + u16(room) + [(7 * i) % 251 for i in range(room - 4)]
+        if proto == "ipfix":
+            b[2:4] = u16(len(b))
+        return b
+    if proto == "sflow":
+        if room < 8 or room % 4 or buf[4:8] != [0, 0, 0, 1]:
+            return None
+        b = list(buf)
+        n = int.from_bytes(bytes(b[24:28]), "big") + 1
+        b[24:28] = list(n.to_bytes(4, "big"))
+        return b + [0, 0, 0, 9] + list((room - 8).to_bytes(4, "big")) + [(5 * i) % 253 for i in range(room - 8)]
+    return None
+
+
 def make_classes_job(ctx, proto, workers, seed):
     job = c12.make_job(ctx, proto, workers, seed, 18)
     exps = flowjobs.exporters(seed)
@@ -436,6 +457,12 @@ def end_to_end(ctx, thorough):
                 data += [(srcs[i % 3], m) for i, m in enumerate(odd_datagrams(ctx.rng, proto))]
             else:
                 data = [(srcs[i % 4], x["buf"]) for i, x in enumerate(job["data"])]
+            # datagrams of exactly the receive buffer's size (1500), and a few octets less
+            base = [(s0, m) for (s0, m) in data if 200 < len(m) < 1300][:3]
+            for (s0, m), size in zip(base, (1500, 1496, 1499)):
+                x = exact_size(proto, m, size)
+                if x and all(x != m2 for _, m2 in data):
+                    data.append((s0, x))
             ctx.rng.shuffle(data)
             plan[proto] = (tpls, data)
         for proto, (tpls, data) in plan.items():
